@@ -23,7 +23,7 @@ def genFor (prop tier : String) (seed : Nat) : Except String (Array Case) :=
   | "C06" => pure (genTabFamily "c06" tier seed false)
   | "C19" => pure (genTabFamily "c19" tier seed true)
   | "C07" => pure (genC07Cases tier seed)
-  | "C08" => pure (genVisCases tier seed "c08")
+  | "C08" => pure (genVisCases tier seed "c08" ++ genVisHostile tier seed "c08")
   | "C09" => pure (genVisCases tier seed "c09")
   | "C16" => pure (genC16AllCases tier seed)
   | "C17" => pure (genC17Cases tier seed)
@@ -47,7 +47,7 @@ def judgeFor (prop : String) : Except String (Case → ObsLine → Verdict) :=
   | "C06" => pure (judgeTabWith ["C06"])
   | "C19" => pure (judgeTabWith [])
   | "C07" => pure judgeC07
-  | "C08" => pure (judgeVis true)
+  | "C08" => pure judgeVisAny
   | "C09" => pure (judgeVis true)
   | "C16" => pure judgeC16
   | "C17" => pure (judgeVis true)
